@@ -140,6 +140,14 @@ def run(ctx):
                       {'history': sessions[si].log[:40], 'failing_event_index': evi, 'default_rule': repr(sessions[si].dflt)})
     ctx.cover['sessions'] = len(sessions)
     set_debug(False)
+    # a name becomes defined when its default is registered, also after the enforcer's first use
+    from checks import loader_common as lc
+    for variant, en in (('plain', True), ('split', False), ('renamed', True)):
+        hs = [[('load', False), ('register',), ('load', False)], [('write', 'main', 'old'), ('load', False), ('register',), ('load', False), ('load', True)]]
+        traces = [lc.run_history(rng, variant, en, h, late=True) for h in hs]
+        for idx, why, step in lc.judge_traces(ctx, variant, en, traces):
+            ctx.violation('late-registration:%s' % why, 'a policy whose default was registered after the first use of the enforcer is not decided by its definition: ' + why,
+                          {'variant': variant, 'enforce_new_defaults': en, 'trace': traces[idx][:step]})
     bad = ec.judge(ctx, cases)
     for c in bad:
         qn = c['call']['name']
